@@ -213,11 +213,13 @@ def eval_case(c):
             cm_ = float(rng.uniform(0.3, 0.6))
             cw = float(rng.uniform(0.01, 0.1))
             phis = np.sort(np.concatenate((rng.uniform(0, 1, 12), [0.0, 1.0, cm_, cm_ + cw, np.nextafter(cm_ + cw, 2), cm_ + cw + 1e-3])))
-            tag = dict(T=T, pre_v=pre_v, liq_v=liq_v, pre_s=pre_s, liq_s=liq_s, solidus=sol, liquidus=liqd, crit=cm_, width=cw)
+            # model parameters: defaults in half of the draws, otherwise within +-50 % of the documented defaults
+            hp = (13.5, 370., 40000., 25., 700.) if d % 2 == 0 else tuple(float(x * rng.uniform(0.5, 1.5)) for x in (13.5, 370., 40000., 25., 700.))
+            tag = dict(T=T, pre_v=pre_v, liq_v=liq_v, pre_s=pre_s, liq_s=liq_s, solidus=sol, liquidus=liqd, crit=cm_, width=cw, hn_params=hp)
             vis = []
             ok = True
             for phi in phis:
-                v, s = mm.henning(float(phi), T, pre_v, liq_v, pre_s, sol, liqd, liq_s, cm_, cw)
+                v, s = mm.henning(float(phi), T, pre_v, liq_v, pre_s, sol, liqd, liq_s, cm_, cw, *hp)
                 cnt['relations_evaluated'] += 3
                 vis.append(v)
                 if not (math.isfinite(v) and math.isfinite(s)):
@@ -241,12 +243,13 @@ def eval_case(c):
                 if b > a * (1 + 2 * EPS):
                     V('melt-henning-viscosity-monotone', f'henning viscosity increased with melt fraction near phi={p!r}: {a!r}->{b!r}', **tag)
                     break
-            va, sa = mm.henning(phis, T, pre_v, liq_v, pre_s, sol, liqd, liq_s, cm_, cw)
+            va, sa = mm.henning(phis, T, pre_v, liq_v, pre_s, sol, liqd, liq_s, cm_, cw, *hp)
             if not close(va, vis, 4):
                 V('melt-henning-array', 'array call differs from scalar calls', **tag)
             # spohn and off laws
             Ts = float(rng.uniform(900, 2500))
-            v, s = mm.spohn(float(rng.uniform(0, 1)), Ts, liq_v, liq_s)
+            sp = () if d % 2 == 0 else tuple(float(x * rng.uniform(0.5, 1.5)) for x in (27000.0, 1.0, 82000.0, 40.6))
+            v, s = mm.spohn(float(rng.uniform(0, 1)), Ts, liq_v, liq_s, *sp)
             cnt['relations_evaluated'] += 2
             if v < liq_v or s < liq_s:
                 V('melt-spohn-below-liquid', f'spohn at T={Ts!r}: viscosity {v!r} (liquid {liq_v!r}), shear {s!r} (liquid {liq_s!r})')
